@@ -34,21 +34,18 @@ Definition bwrap (x : bint) (y : Z) : option bint :=
     match bshl bint_one y with Some s => Some (band x (bdec s)) | None => None end
   else Some x.
 
-(* brol / bror.  For y < 0 and y ~= mininteger the other function is called with -y > 0, which
-   takes its first branch; for y == mininteger the code calls x:bror(..) twice and discards the
-   results, returning x unchanged. *)
+(* brol / bror (as repaired in /repo: "fix: bint rotations reduce the count modulo the bit width"):
+     y = y % BINT_BITS; if y ~= 0 then return (x << y) | (x >> (BINT_BITS - y)) end; return x
+   BINT_BITS is a non-zero constant, so the Lua floor modulo never raises (lmod y BINT_BITS = Some (y mod BINT_BITS)). *)
 Definition bor_opt (a b : option bint) : option bint :=
   match a, b with Some u, Some v => Some (bor u v) | _, _ => None end.
+Definition imod_bits (y : Z) : Z := y mod BINT_BITS.
 Definition brol_pos (x : bint) (y : Z) : option bint := bor_opt (bshl x y) (bshr x (lsub BINT_BITS y)).
 Definition bror_pos (x : bint) (y : Z) : option bint := bor_opt (bshr x y) (bshl x (lsub BINT_BITS y)).
 Definition brol (x : bint) (y : Z) : option bint :=
-  if 0 <? y then brol_pos x y
-  else if y <? 0 then (if y =? minint then Some x else bror_pos x (lneg y))
-  else Some x.
+  let y1 := imod_bits y in if y1 =? 0 then Some x else brol_pos x y1.
 Definition bror (x : bint) (y : Z) : option bint :=
-  if 0 <? y then bror_pos x y
-  else if y <? 0 then (if y =? minint then Some x else brol_pos x (lneg y))
-  else Some x.
+  let y1 := imod_bits y in if y1 =? 0 then Some x else bror_pos x y1.
 
 (* ---- sudivmod: divide by one word, limbs from the most significant ---- *)
 Fixpoint sudiv_loop (rn : list Z) (deno carry rema : Z) : option (list Z * Z) :=
